@@ -618,4 +618,23 @@ example : oldUnownedRemoveAccepts 0 5 = true ∧
     (vecStep { buf := [], len := 0 } (.remove (.incl 0) (.excl 5))).1 = .panic ∧
     (step true 4 .unowned [] (.remove (.incl 0) (.excl 5))).1 = .panic := by decide
 
+/-- **Growth beyond the capacity is refused whatever the size of the slice** — in
+particular for slices of 2^32 bytes and more, whose length does not fit the
+`u32` spare capacity: the outcome of `extend_from_slice` depends on the length
+of the slice only, the buffer and the pool memory stay as they were (and an
+unowned `ReadBuf` refuses every slice). The `exthuge` op of the correspondence
+uses this: a slice of `n ≥ 2^32` bytes behaves like one of `bs + 1` bytes. -/
+theorem C15_extend_refused_of_long (dev : Bool) (bs : Nat) (rb : RB) (mem : List Byte)
+    (d : List Byte) (hd : d.length > bs) :
+    step dev bs rb mem (.extend d) = (.err, rb, mem) := by
+  cases rb with
+  | owned off len =>
+    simp only [step]
+    have : len + d.length > bs := by omega
+    simp [this]
+  | unowned => simp [step]
+
+example : step true 4 (.owned 4 3) [9, 9, 9, 9, 1, 2, 3, 4] (.extend (List.replicate 5 0))
+    = (.err, .owned 4 3, [9, 9, 9, 9, 1, 2, 3, 4]) := by decide
+
 end A10.ReadBuf
